@@ -265,6 +265,17 @@ func init() {
 		defer w.cleanup()
 		ro := c11Setup(w, a[:5], a[5], a[6], "abc")
 		ro.Lang = a[7]
+		// a valid AdjacentKey sheet next to the spoilt book: its blank key cells are filled from the line above, and
+		// its row cells go back to the process-wide pool carrying that mark (a recycled cell must not show it)
+		adj := [][]string{{"ID", "PropID", "Value"}, {"map<uint32, Adj>", "map<int32, Prop>", "int32"}, {"id", "prop", "value"}}
+		for i := 0; i < 40; i++ {
+			id := ""
+			if i%8 == 0 {
+				id = strconv.Itoa(1 + i/8)
+			}
+			adj = append(adj, []string{id, strconv.Itoa(1 + i%8), strconv.Itoa(i)})
+		}
+		w.writeCSVBook("", bookSpec{Name: "Adj", Sheets: []sheetSpec{{Name: "AdjConf", Rows: adj, Meta: map[string]string{"AdjacentKey": "true"}}}})
 		if err := w.genProto(ro); err != nil {
 			return "protoerr " + errCode(err)
 		}
